@@ -14,9 +14,13 @@
    so the invariant above holds for what fit returns; (C11_converged): in any state the solver can reach, a
    sweep that changes no dual variable (the stopping test in exact form) changes nothing at all, and every
    constraint is then inactive (lambda_i = 0, slack-adjusted bound satisfied) or tight (v_i^T A v_i = xi_i).
+   PROVED as well (C11_source): the statements of itml.py's loop as TRANSLATED on this run (gen/Src_itml.v: the two
+   update blocks, gamma_proj, the stopping test; the set-up and post-loop statements pinned as text) compute the
+   model's loop, so everything above holds for what the translated source returns.
    NOT mechanised: that such a KKT point is the unique optimum of the LogDet problem (strict convexity). *)
 From Coq Require Import List Reals Lra Psatz.
-From ML Require Import Ops Vec VecR MatR PSD ITML C11Proof C11Fixed C11Conv.
+From ML Require Import Ops Vec VecR MatR PSD ITML C11Proof C11Fixed C11Conv C11Src.
+From MLgen Require Import Src_itml.
 Import ListNotations.
 Open Scope R_scope.
 
@@ -119,3 +123,32 @@ Example C11_converged_nonvacuous :
   lams (sweepR (Some 1) cs s) = lams s.
 Proof. cbn. unfold lams, sweep. cbn. f_equal. rewrite omin_Rmin. unfold inv. cbn. unfold Rmin.
   destruct (Rle_dec 0 _) as [|n0]; [lra|]. exfalso. apply n0. lra. Qed.
+
+(* the translated source: the loop of itml.py (gen/Src_itml.v) returns a state satisfying all of the above *)
+Definition C11_source_stmt : Prop :=
+  forall (d : nat) (g : option R) (cs : list cstrR) (A0 B0 : Rm) (lo hi tol : R) (max_iter : nat),
+    gamma_ok g -> Forall (cstr_ok d) cs -> inv_ok d A0 B0 -> 0 < lo -> 0 < hi -> (0 < max_iter)%nat ->
+    let r := @src_fit_loop ROps g cs tol max_iter A0 lo hi in
+    let s := fst r in
+    exists (n_iter : nat) (B : Rm),
+      (n_iter < max_iter)%nat /\ snd r = n_iter /\
+      s = runR g cs (S n_iter) (@init ROps A0 cs lo hi) /\
+      wfmR d d (A s) /\ symop d (A s) /\ PDop d (A s) /\
+      (forall x, wfvR d x -> mvmulR (A s) (mvmulR B x) = x) /\
+      (forall x y, wfvR d x -> wfvR d y ->
+         vdotR y (mvmulR B x) = vdotR y (mvmulR B0 x) + Sb cs (duals s) x y) /\
+      Forall (fun du : dualR => 0 <= lam du /\ 0 < bhat du) (duals s) /\
+      length (duals s) = length cs.
+
+Theorem C11_source : C11_source_stmt.
+Proof.
+  intros d g cs A0 B0 lo hi tol max_iter Hg Hcs Hinv Hlo Hhi Hm r s. subst s r.
+  rewrite (src_fit_loop_eq d g cs A0 B0 lo hi tol max_iter Hg Hcs Hinv Hlo Hhi).
+  destruct (C11_loop g cs tol max_iter A0 lo hi Hm) as [n_iter [Hn [Hsnd Hfst]]].
+  destruct (C11_partial d g cs A0 B0 lo hi (S n_iter) Hg Hcs Hinv Hlo Hhi) as [B HB].
+  exists n_iter, B. rewrite Hfst. split; [exact Hn|]. split; [exact Hsnd|]. split; [reflexivity|]. exact HB.
+Qed.
+Print Assumptions C11_source.
+
+(* the skeleton of _fit around the loop is the one the model assumes *)
+Definition C11_source_skeleton := itml_skeleton_ok.
